@@ -41,6 +41,10 @@ pub struct UdpClient {
     pub start_ms: u64,
     pub sizes: Vec<usize>,
     pub gap_ms: u64,
+    /// SOCKS5 associations only: target of exchange k is `(target + hops[k]) % n_udp_targets`, so one
+    /// association (one flow) talks to several targets
+    #[serde(default)]
+    pub hops: Vec<usize>,
 }
 #[derive(Serialize, Deserialize, Clone, Debug)]
 pub struct C01Plan {
@@ -328,10 +332,10 @@ fn udp_payload(client: usize, k: usize, n: usize) -> Vec<u8> {
     (0..n as u64).map(|j| pbyte(500 + client, k % 16, j + (k as u64) * 7)).collect()
 }
 
-async fn udp_client(ci: usize, c: UdpClient, res: Rc<RefCell<Vec<UdpRes>>>, faulty: bool) {
+async fn udp_client(ci: usize, c: UdpClient, res: Rc<RefCell<Vec<UdpRes>>>, faulty: bool, n_targets: usize) {
     tokio::time::sleep(ms(c.start_ms)).await;
     let sock = UdpSocket::bind("127.0.0.1:0").await.expect("bind local udp");
-    let target_port = 9100 + c.target as u16;
+    let tgt_of = |k: usize| -> usize { if c.via_socks { (c.target + c.hops.get(k).copied().unwrap_or(0)) % n_targets.max(1) } else { c.target } };
     // where we send: the UDP remote of the client, or the SOCKS5 relay
     let mut _ctrl = None;
     let dest: SocketAddr = if c.via_socks {
@@ -373,6 +377,7 @@ async fn udp_client(ci: usize, c: UdpClient, res: Rc<RefCell<Vec<UdpRes>>>, faul
     let mut buf = vec![0u8; 70_000];
     for (k, n) in c.sizes.iter().enumerate() {
         let payload = udp_payload(ci, k, *n);
+        let target_port = 9100 + tgt_of(k) as u16;
         let mut pkt = vec![];
         if c.via_socks {
             pkt.extend([0, 0, 0, 1, 127, 0, 0, 1]);
@@ -385,7 +390,7 @@ async fn udp_client(ci: usize, c: UdpClient, res: Rc<RefCell<Vec<UdpRes>>>, faul
         }
         res.borrow_mut()[ci].sent += 1;
         // the reply: "re:" + target index + our payload
-        let mut expect = format!("re{}:", c.target).into_bytes();
+        let mut expect = format!("re{}:", tgt_of(k)).into_bytes();
         expect.extend(&payload);
         match tokio::time::timeout(Duration::from_secs(8), sock.recv_from(&mut buf)).await {
             Err(_) => {
@@ -422,7 +427,7 @@ async fn udp_client(ci: usize, c: UdpClient, res: Rc<RefCell<Vec<UdpRes>>>, faul
                     Ok(b) => {
                         // in faulty configurations an older reply of our own may arrive late (reordering / duplication)
                         let own_older = (0..k).any(|j| {
-                            let mut e = format!("re{}:", c.target).into_bytes();
+                            let mut e = format!("re{}:", tgt_of(j)).into_bytes();
                             e.extend(udp_payload(ci, j, c.sizes[j]));
                             e == b
                         });
@@ -539,7 +544,7 @@ pub fn run(plan: &C01Plan, sched: &Sched) -> Outcome {
                     }));
                 }
                 for (ci, c) in plan.udp.iter().enumerate() {
-                    tasks.push(tokio::task::spawn_local(udp_client(ci, c.clone(), ures2.clone(), faulty)));
+                    tasks.push(tokio::task::spawn_local(udp_client(ci, c.clone(), ures2.clone(), faulty, plan.n_udp_targets)));
                 }
                 // ---- run to the horizon: everything must have resolved by then
                 let all = async {
@@ -670,6 +675,9 @@ pub fn run(plan: &C01Plan, sched: &Sched) -> Outcome {
         o.probe(if c.via_socks { "udp-via-socks5" } else { "udp-via-remote" }, r.replies_ok as u64);
         if c.sizes.iter().any(|s| *s < 4) {
             o.probe("udp-payload-under-4-bytes", 1);
+        }
+        if c.via_socks && plan.n_udp_targets > 1 && c.hops.iter().take(c.sizes.len()).any(|h| h % plan.n_udp_targets != 0) && r.replies_ok > 1 {
+            o.probe("one-association-several-targets", 1);
         }
     }
     if plan.udp.len() > 1 {
